@@ -8,7 +8,7 @@ RULE = ("disp: L1 histories on the real dispensation keeper (sifapp.SetupWithBla
         "create-distribution (1-5 outputs, duplicate recipients, 1-3 denoms, amounts 1..2^70, blocked recipients = blacklisted address and "
         "two module accounts, invalid coins/addresses/types, poor distributors), run-distribution (aimed at a pending record 90%; other runner/"
         "name/type 25%; counts 1..20 and 0, 21, -1), create-claim, blocks with the real BeginBlocker, funding, transfers; a directed "
-        "runner-merge history; after every operation the whole module store (iteration order, raw keys) and 33 balances are compared with the "
+        "runner-merge history; a directed same-block history create(runner A)/run/claims re-filed/create(same distributor+type, runner B, overlapping recipients)/runs (full and partial); after every operation the whole module store (iteration order, raw keys) and 33 balances are compared with the "
         "model and the escrow / ledger / run / claims predicates are judged on the implementation's dump; non-trivial = accepted create/run/claim")
 TRUSTED_BASE = [
     "Lean 4.33.0 kernel; axioms propext, Classical.choice, Quot.sound (audited per theorem on every run)",
@@ -36,7 +36,7 @@ UNPROVED = [
 MANIFEST = {
     "text": "Lean 4 theorems over a hand-written model of x/dispensation (create / run / claim handlers, ValidateBasic, key functions, "
             "ChangeRecordStatus, transaction all-or-nothing): refinement theorems per message (create_refines, run_refines, one_claim_per_type, "
-            "claim_deleted_on_pay, run_pays_from_escrow, run_wrong_runner_pays_nothing, run_at_most_count, refused_changes_nothing), key-injectivity lemmas, and two "
+            "claim_deleted_on_pay, run_pays_from_escrow, run_leaver_paid_or_failed (nothing is silently dropped), run_wrong_runner_pays_nothing, run_at_most_count, refused_changes_nothing), key-injectivity lemmas, and two "
             "invariants proved by induction over ALL histories of messages, blocks, funding and transfers: escrow_covers (module balance >= "
             "pending + failed, per denom) and paid_at_most_once (per record key: paid + pending + failed = created). Tied to the code by "
             "regenerated facts (store prefixes, constants) and by differential execution of the real keeper (whole module store incl. raw keys and "
